@@ -51,15 +51,15 @@ impl MmioDev for BarDev {
     fn write(&mut self, _off: u64, _width: u8, _val: u64) {}
 }
 #[derive(Clone, Copy, Debug)]
-struct BarMap { idx: usize, paddr: u64, size: u64, vbase: usize }
+pub struct BarMap { pub idx: usize, pub paddr: u64, pub size: u64, pub vbase: usize }
 
 /// one capability structure as it is laid into configuration space
 #[derive(Clone, Copy, Debug)]
-pub struct Cap { at: u8, id: u8, cap_len: u8, cfg_type: u8, bar: u8, offset: u32, length: u32, mult: u32 }
+pub struct Cap { pub at: u8, pub id: u8, pub cap_len: u8, pub cfg_type: u8, pub bar: u8, pub offset: u32, pub length: u32, pub mult: u32 }
 
 /// a whole PCI function plus the platform's view of its BARs
 #[derive(Clone)]
-pub struct Dev { f: RefFn, maps: Vec<BarMap> }
+pub struct Dev { pub f: RefFn, pub maps: Vec<BarMap> }
 
 fn spec_truth(sp: &Spec) -> Option<(u64, u64)> {
     match *sp {
@@ -69,7 +69,7 @@ fn spec_truth(sp: &Spec) -> Option<(u64, u64)> {
     }
 }
 /// lay `specs` into the six registers in order; returns the registers and (slot, spec) of each BAR start
-fn layout(specs: &[Spec]) -> ([Slot; 6], Vec<(usize, Spec)>) {
+pub fn layout(specs: &[Spec]) -> ([Slot; 6], Vec<(usize, Spec)>) {
     let mut bars = [DSLOT; 6];
     let mut starts = vec![];
     let mut i = 0;
@@ -83,7 +83,7 @@ fn layout(specs: &[Spec]) -> ([Slot; 6], Vec<(usize, Spec)>) {
     (bars, starts)
 }
 /// `mis[i]`: misalignment of the virtual mapping of the BAR starting in slot i
-fn build_dev(vendor_device: u32, cmd: u16, status: u16, bars: [Slot; 6], starts: &[(usize, Spec)], mis: &[usize; 6], caps: &[Cap], ptr_noise: u32, term: u8) -> Dev {
+pub fn build_dev(vendor_device: u32, cmd: u16, status: u16, bars: [Slot; 6], starts: &[(usize, Spec)], mis: &[usize; 6], caps: &[Cap], ptr_noise: u32, term: u8) -> Dev {
     let mut f = RefFn::new(cmd, status | if caps.is_empty() { 0 } else { 0x0010 }, bars);
     f.regs[0] = vendor_device;
     for (i, c) in caps.iter().enumerate() {
@@ -323,7 +323,7 @@ impl Rig {
 
 // ---------------------------------------------------------------- generators
 const CAP_SLOTS: [u8; 8] = [0x40, 0x58, 0x70, 0x88, 0xa0, 0xb8, 0xd0, 0xe8];
-fn cap(at: u8, ty: u8, bar: u8, offset: u32, length: u32) -> Cap { Cap { at, id: 9, cap_len: if ty == 2 { 20 } else { 16 }, cfg_type: ty, bar, offset, length, mult: 4 } }
+pub fn cap(at: u8, ty: u8, bar: u8, offset: u32, length: u32) -> Cap { Cap { at, id: 9, cap_len: if ty == 2 { 20 } else { 16 }, cfg_type: ty, bar, offset, length, mult: 4 } }
 
 /// a plain, valid device: BAR0 = 16 KiB of 32-bit memory at 0xfe000000 holding the four structures
 fn base_dev() -> (Vec<Spec>, Vec<Cap>) {
